@@ -1349,17 +1349,19 @@ int32_t carquet_row_batch_num_columns(const carquet_row_batch_t* batch);
  * @param[in] batch Row batch
  * @param[in] column_index Column index within the batch (0 to num_columns-1)
  * @param[out] data Pointer to column data (type depends on physical type)
- * @param[out] null_bitmap Null bitmap (1 bit per value, set = not null) or NULL
+ * @param[out] null_bitmap Null bitmap (1 bit per row, set = null)
  * @param[out] num_values Number of values in the column
  * @return CARQUET_OK on success
  *
  * @note Thread-safe: Yes (read-only)
  *
  * @par Null Bitmap Format
- * The null bitmap uses 1 bit per value, with bit i set if value i is NOT null.
- * Use the following to check if value i is null:
+ * The null bitmap uses 1 bit per row, with bit i set if row i IS null (all bits
+ * are clear for a REQUIRED column). The data of a nullable column holds only the
+ * non-null values, packed contiguously in row order.
+ * Use the following to check if row i is null:
  * @code{.c}
- * bool is_null = null_bitmap && !(null_bitmap[i / 8] & (1 << (i % 8)));
+ * bool is_null = null_bitmap && (null_bitmap[i / 8] & (1 << (i % 8)));
  * @endcode
  */
 CARQUET_API CARQUET_WARN_UNUSED_RESULT CARQUET_NONNULL(1, 3, 4, 5)
